@@ -421,12 +421,16 @@ Proof.
   intros Hb H. unfold send_event in H.
   destruct (String.eqb ev Ev_Done).
   { apply ret_inv in H. destruct H as (H & _ & ->). inversion H; subst. cbn. auto. }
+  destruct (next_state t (m_cur m) ev).
+  2:{ apply ret_inv in H. destruct H as (H & _ & ->). inversion H; subst. cbn. auto. }
   destruct ctx as [c|].
   - destruct (validate_ctx (m_data m) c); cbn [negb] in H.
     + destruct (apply_ctx (m_data m) c) as [d'|] eqn:Hap.
       * eapply ptl_otb; [|exact H]. cbn. intros Hbt. eapply apply_ctx_otb; eauto.
       * apply ret_inv in H. destruct H as (H & _ & ->). inversion H; subst. cbn. auto.
-    + eapply ptl_otb; eauto.
+    + unfold accepted_then_loop in H. destruct (next_state t (m_cur m) Ev_Invalid).
+      * eapply ptl_otb; eauto.
+      * apply ret_inv in H. destruct H as (H & _ & ->). inversion H; subst. cbn. auto.
   - eapply ptl_otb; eauto.
 Qed.
 
